@@ -44,6 +44,23 @@ TABLE = {
              "replay divergence in their own threaded replays where those exist)",
         design_ref="6/C03, 3.2, 4.5, 9.1, 9.8",
         technique="explicit TLA+ weak-memory model checked by TLC, memory orders extracted from the executing code (conformance binding by schedule replay)"),
+    "C05": dict(
+        claimed=True,
+        text="TLC checks spec/CoroSched/CoroSched.tla, a sequential stack machine of one thread (install_queue_and_call frame with its loop "
+             "and flush trailer, resume frames with symmetric transfer, the thread-local ready deque, the coroutine-mode flag). It enumerates "
+             "whole programs of scripted coroutines lazily over pause, promise resolve (discarded or awaited), future await, detach / co_await "
+             "/ promise-bound / nested start() spawns, coro_queue::resume, mutex lock/release and queue push/pop, entered from native code and "
+             "from inside coroutines. Checked: RunToSuspension, QueueFIFO/FIFOStep/ObservedOrder, ResumeOncePerReadying, NoReentrancy, "
+             "RoundRobin, FullDrain, CoroMode. Every program (quick: a sample biased to contended deques) is executed on the real "
+             "coro_queue/suspend_point/async/future/mutex/queue and must reproduce the specification's event history exactly, including the "
+             "content of the real deque and is_active() at every event, the final state and per-coroutine resume counts. Thorough adds "
+             "sanitizers and random programs of 5 coroutines x 5 steps from TLC simulation, each replayed.",
+        note="bounds: exhaustive N<=3-4 coroutines x 2-3 steps (up to 3*10^6 states per config), N=5 x 5 steps by simulation only; one thread, one "
+             "mutex, one queue<void>; deadlock-free programs only. For a nested future-returning start() 'the running coroutine' is read as the "
+             "innermost activation (the library's documented rule); the strict reading fails for that idiom and is recorded as an evidence note, "
+             "not an alarm. Release order within one resolve is mirrored from the code. TCB: TLC, the observing awaiter wrapper and event "
+             "logger of corosched_replay.cpp, the driver's terminal-state extraction",
+        design_ref="6/C05, 3.4"),
     "C07": dict(
         claimed=True,
         text="TLC checks spec/Mutex/Mutex.tla at the finest replayable grain (every atomic operation on the request stack AND every "
@@ -96,6 +113,38 @@ TABLE = {
              "and promise resolution are not scheduling points); notify_one wakes the longest waiter, no spurious wake-ups; "
              "resume(suspend_point)/pool(awaitable) dropping a bare handle on a stopped pool is a recorded known finding",
         design_ref="6/C11, 3.7, 4.1, 9.4"),
+    "C13": dict(
+        claimed=True,
+        text="TLC checks spec/Generator/Generator.tla - the generator promise's hand-over record (caller, internal awaiter function, arg, ret, "
+             "exception, done, block flag, parked promise) with one action per code site of generator.h/iterator.h - exhaustively over lazily "
+             "enumerated pairs of body scripts (yield, co_yield nullptr, await of a resolved or pending awaitable, throw, return) and consumer "
+             "scripts mixing all access styles (next()/value(), co_await next(), gen() future, begin/++/it++ and range-for, with and without "
+             "argument), with early destruction at every parked point: SameSequence, SingleEOS, ExceptionAtPosition, ArgDelivered, "
+             "LocalsDestroyedOnce, RecordClean, BlockedOnlyOnPending, TerminalOK. Every edge of each state graph is replayed on the real "
+             "generator<int>/generator<int,int>, each path in two consumer implementations (plain code with per-access coroutines, and one "
+             "consumer coroutine with a real range-for), comparing after every public call the consumer's observations, the arguments the body "
+             "received, RAII and parameter counters, futures' states and the private hand-over record. Blocking accesses on a body awaiting a "
+             "pending operation run on real threads under the controlled scheduler, with the awaited operation completed by another thread.",
+        note="bounds: quick body<=4 steps and <=4 accesses (full edge cover, 49k paths x 2 modes); thorough body<=5-6 and <=5-6 accesses (281k paths, "
+             "ASan/UBSan) plus TLC-only runs (2.0M states); int values, lvalue arguments, <=2 accesses after an exception, two thread release orders "
+             "only; TCB: TLC, vsched, the replayer's projection and private-member access, the linear path cover in tools/checks/c13.py",
+        design_ref="6/C13, 3.9"),
+    "C18": dict(
+        claimed=True,
+        text="Adapters.tla models callback_await / callback_await_alloc, make_promise (heap and storage), discard, call_fn_future_awaiter and all "
+             "six future_conv forms at the grain of the atomic operations on the awaited future (claim exchange, resolving exchange + chain walk, "
+             "await_ready load, subscribe CAS, refusal fence), with the self-owning helper's life cycle and every allocation observable. TLC "
+             "checks CallbackOnce, RightOutcome, HelperFreedOnce (+FreedByCompletion) and ConvertedValueOrException exhaustively for every "
+             "adapter x outcome (value, exception, broken promise) x timing (resolved before registration, after on the same thread, all "
+             "interleavings with one and with two competing resolvers on other threads) x allocator (heap, reusable_storage, "
+             "reusable_storage_mtsafe, counting storage) x converter behaviour, including reuse of helper and storage for a second and third "
+             "operation. Every edge of the sequential and one-resolver graphs (thorough: also of the two-resolver graph) is replayed on the "
+             "real adapters, sequential timings on one real thread and concurrent timings on real threads under the controlled scheduler; "
+             "after every step the real objects are compared with the specification's state.",
+        note="bounds: <=3 operations per scenario, <=2 competing resolvers, one subscriber, int/void payloads, quick caps the two-resolver graph at 6 "
+             "paths per combination; TCB: TLC, vsched token passing with scheduling points on the awaited future's slot/owner word and fence only, "
+             "SC interleavings (weak CAS as strong), adapters called from a plain thread (no active coroutine queue), non-throwing user callbacks",
+        design_ref="6/C18, 3.12"),
     "C20": dict(
         claimed=True,
         text="The Future and Mutex specifications carry an allocation allowance (Future: none; Mutex: only the coroutine frames the "
